@@ -13,6 +13,7 @@ pub mod c13;
 pub mod c14;
 pub mod c15;
 pub mod c16;
+pub mod c19;
 
 /// run a property; returns process exit code
 pub fn run(cfg: RunCfg, verif_dir: &str) -> i32 {
@@ -35,6 +36,7 @@ pub fn run(cfg: RunCfg, verif_dir: &str) -> i32 {
         "C14" => c14::run(&mut run),
         "C15" => c15::run(&mut run),
         "C16" => c16::run(&mut run),
+        "C19" => c19::run(&mut run),
         _ => {
             eprintln!("unknown property {id}");
             return 3;
@@ -59,6 +61,7 @@ pub fn replay(id: &str, suite: &str, path: &str) -> Result<(), String> {
         "C14" => c14::replay(suite, path),
         "C15" => c15::replay(suite, path),
         "C16" => c16::replay(suite, path),
+        "C19" => c19::replay(suite, path),
         _ => Err(format!("unknown property {id}")),
     }
 }
